@@ -448,9 +448,7 @@ func TestGeneratedLexer(t *testing.T) {
 				rep.fail(obl, label, "no EOF or error after 4*len+8 tokens")
 				continue
 			}
-			if spec.name == "nullable-rule" {
-				continue // the reference semantics is defined for rules that do not match the empty string
-			}
+			// (a rule that can match the empty string never does: a token consumes at least one character)
 			want, unaccounted := spec.reference(in)
 			_ = unaccounted
 			if fmt.Sprint(got.Toks) != fmt.Sprint(want) {
